@@ -166,14 +166,14 @@ class InputGuard:
             ExplicitComponent._compute_wrapper = self._orig
 
 
-def build(kind, case):
+def build(kind, case, mode="auto"):
     # complex storage is allocated so that check_partials can use complex step: OpenMDAO's finite-difference check overwrites
     # setup-constant sub-Jacobians with its (inexact) estimates for good, the complex-step check leaves them exact
     if kind == "aero":
-        return zoo.build_aero(case, geom=True, complex_=True)
+        return zoo.build_aero(case, geom=True, complex_=True, mode=mode)
     if kind == "struct":
-        return zoo.build_struct(case, complex_=True)
-    return zoo.build_as(case, complex_=True)
+        return zoo.build_struct(case, complex_=True, mode=mode)
+    return zoo.build_as(case, complex_=True, mode=mode)
 
 
 def set_point(prob, pt):
@@ -279,17 +279,21 @@ def run_history(c, o):
         tot = totals_of(p, of, wrt)
         # OpenMDAO only refreshes sub-Jacobians that are relevant to the requested totals once compute_totals has run
         # (framework behaviour): compare only those, identified on a second fresh problem that computes totals first
-        p2 = build(kind, case)
+        # the second fresh problem is solved in the other derivative direction: the difference between the two fresh answers is the
+        # round-off floor of the linear solve for each total (observed: 5e-5 relative on dCM/dtwist of a wing whose coupled Jacobian
+        # has condition number 1e15, with every sub-Jacobian and every output equal to 1e-15)
+        p2 = build(kind, case, mode="rev" if p._mode == "fwd" else "fwd")
         set_point(p2, pt)
         zoo.run(p2)
-        totals_of(p2, of, wrt)
+        tot2 = totals_of(p2, of, wrt)
+        noise = {k: float(np.abs(tot[k] - tot2[k]).max(initial=0.0)) if k in tot2 and tot2[k].shape == tot[k].shape else 0.0 for k in tot}
         with warnings.catch_warnings():
             warnings.simplefilter("ignore")
             p2.model.run_linearize()
         s2 = jacs_of(p2)
         rel = {k: bool(k in s2 and s1[k].shape == s2[k].shape and np.allclose(s1[k], s2[k], rtol=1e-9, atol=0)) for k in s1}
         relevant = rel if relevant is None else {k: relevant[k] and rel.get(k, False) for k in relevant}
-        ref.append(dict(out=outputs_of(p), jac=s1, tot=tot))
+        ref.append(dict(out=outputs_of(p), jac=s1, tot=tot, noise=noise))
     for r_ in ref:
         r_["jac"] = {k: v for k, v in r_["jac"].items() if relevant.get(k, False)}
     o.count("relevant_subjacobians", sum(relevant.values()))
@@ -314,7 +318,7 @@ def run_history(c, o):
             return base_rt, 0.0
 
         def tol_tot(k):
-            return (1e-4, 1e-9) if polluted_comps else (max(base_rt, 1e-9) * 10, 0.0)
+            return (1e-4, 1e-9) if polluted_comps else (max(base_rt, 1e-9) * 10, 20.0 * ref[cur]["noise"].get(k, 0.0))
 
         def observe(tag):
             nonlocal nobs
@@ -403,7 +407,7 @@ def run_history(c, o):
                         ops[-1] = "check_totals_failed:" + type(e).__name__
                 observe("check_totals")
                 if not polluted_comps:  # once the framework has written FD estimates into constant Jacobians the totals are not the repository's
-                    cmp_dicts(o, "hist/totals", totals_of(live, of, wrt), ref[cur]["tot"], lambda k: (1e-7 if not coupled else 1e-6, 1e-10), tags + ["after=check_totals"],
+                    cmp_dicts(o, "hist/totals", totals_of(live, of, wrt), ref[cur]["tot"], lambda k: (1e-7 if not coupled else 1e-6, 1e-10 + 20.0 * ref[cur]["noise"].get(k, 0.0)), tags + ["after=check_totals"],
                               "totals right after check_totals (no re-run), history %s" % ops[-6:])
                     nobs += 1
     finally:
